@@ -191,6 +191,15 @@ pub fn run(rep: &mut Report, thorough: bool) {
             let i = b.sentinel(&mut rng, Mode::Pause, &shape, Some(b"nullsp".to_vec()), None);
             null_idx = Some(i);
         }
+        // a thread whose stack pointer is an unusual but NON-null value (all ones, tiny, odd, the
+        // sign bit, non-canonical): only the null stack pointer marks a thread to be left out
+        if plan.n >= 2 {
+            let sp = *rng.pick(&[u64::MAX, u64::MAX, 1, 7, 8, 0xfff, 1u64 << 63, u64::MAX - 7, 0x7fff_ffff_ffff, 0xffff_8000_0000_0000, u32::MAX as u64]);
+            let shape = StackShape { pages: 0, sp_offset: sp as i64, ..Default::default() };
+            let mode = if rng.chance(1, 2) { Mode::Spin } else { Mode::Pause };
+            b.sentinel(&mut rng, mode, &shape, Some(b"oddsp".to_vec()), None);
+            rep.count("odd_sp_threads", 1);
+        }
         let t = match Target::spawn(b.spec.clone(), &b.opts) {
             Ok(t) => Arc::new(t),
             Err(e) => {
@@ -396,4 +405,5 @@ pub fn run(rep: &mut Report, thorough: bool) {
     rep.require("snapshot_triples_checked", 3);
     rep.require("vanished_threads_checked", 1);
     rep.require("null_sp_threads_checked", 1);
+    rep.require("odd_sp_threads", 3);
 }
